@@ -54,6 +54,11 @@ def cases(tier, rng):
         for n8 in (125, 127, 120 + (ln % 7)):
             ps.append({"x": "tw", "n": n8, "ncls": "np8", "wells": shapes[0][0], "present": "list", "len": ln})
         ps.append({"x": "tw", "n": 250 + (ln % 5), "ncls": "npu8", "wells": shapes[0][0], "present": "list", "len": ln})
+    # identifiers of different widths in one collection (columns 99 and 100, 9 and 10 and 100): taken as they are
+    for ids in (["A99", "A100"], ["A100", "A99"], ["B09", "B10", "B100"], ["A01", "A100", "A10", "A1000"]):
+        for present in ("list", "ndarray", "tuple", "object"):
+            for n in (0, 1, 2, 3, 5, 8):
+                ps.append({"x": "tw", "n": n, "ncls": "int", "wells": {"k": "l", "x": ids}, "present": present, "len": len(ids)})
     # empty well collections
     for n in (0, 1, 5):
         ps.append({"x": "tw", "n": n, "ncls": "int", "wells": {"k": "l", "x": []}, "present": "list", "len": 0})
